@@ -27,6 +27,7 @@ import (
 
 var verifDir = "/verif"
 var noEvidence bool
+var auxRaceEvidence map[string]any
 
 type propSpec struct {
 	Scenario   string
@@ -118,6 +119,8 @@ func main() {
 	case "probe":
 		scen.ProbeCyclic(os.Args[2])
 		os.Exit(0)
+	case "race":
+		os.Exit(cmdRace(os.Args[2:]))
 	default:
 		fmt.Fprintln(os.Stderr, "unknown subcommand", os.Args[1])
 		os.Exit(2)
@@ -851,6 +854,15 @@ func cmdCheck(args []string) int {
 		n := m.KnownHits[k.Property+"|"+k.Class+"|"+k.Site]
 		fmt.Printf("KNOWN-FINDING: property=%s class=%s site=%s %s (reproduced %d times in this run)\n", k.Property, k.Class, k.Site, k.Text, n)
 	}
+	if *prop == "C18" {
+		ev, rl, rc := auxRace(seed, *tier)
+		auxRaceEvidence = ev
+		lines = append(lines, rl...)
+		confirmed += len(rl)
+		if rc == 2 && exit == 0 {
+			exit = 2
+		}
+	}
 	wall := time.Since(t0).Seconds()
 	if !noEvidence {
 		writeEvidence(*prop, *tier, seed, spec, m, len(sigs), len(nsigs), wall, *nw, confirmed)
@@ -908,6 +920,9 @@ func writeEvidence(prop, tier string, seed uint64, spec *propSpec, m *workerResu
 		"tape_draws":                  m.Draws,
 		"event_log_hash":              fmt.Sprintf("%016x", m.LogHash),
 		"exhaustive":                  false,
+	}
+	if auxRaceEvidence != nil {
+		cov["aux_race"] = auxRaceEvidence
 	}
 	ev := map[string]any{
 		"property_id": prop,
@@ -995,4 +1010,94 @@ func cmdSelftest(args []string) int {
 		return 2
 	}
 	return 0
+}
+
+// ---------------------------------------------------------------------------
+// auxiliary race-detector run (C18); this subcommand is meant to be executed
+// by the binary built with -race
+
+func cmdRace(args []string) int {
+	fs := flag.NewFlagSet("race", flag.ExitOnError)
+	seed := fs.Uint64("seed", 1, "")
+	g := fs.Int("goroutines", 16, "")
+	dur := fs.Duration("dur", 8*time.Second, "")
+	out := fs.String("out", "", "")
+	fs.Parse(args)
+	runtime.GOMAXPROCS(16)
+	res := scen.RunRace(*seed, *g, *dur)
+	b, _ := json.Marshal(res)
+	if *out != "" {
+		os.WriteFile(*out, b, 0o644)
+	} else {
+		os.Stdout.Write(b)
+	}
+	if len(res.Mismatches) > 0 {
+		return 1
+	}
+	return 0
+}
+
+// auxRace runs the race binary (if present) and returns evidence and
+// VIOLATION lines.
+func auxRace(seed uint64, tier string) (map[string]any, []string, int) {
+	bin := os.Args[0] + "-race"
+	if _, err := os.Stat(bin); err != nil {
+		return map[string]any{"built": false}, nil, 0
+	}
+	dur := "8s"
+	if tier == "thorough" {
+		dur = "300s"
+	}
+	tmp, _ := os.MkdirTemp(filepath.Join(verifDir, "bin"), "race-")
+	defer os.RemoveAll(tmp)
+	out := filepath.Join(tmp, "race.json")
+	logp := filepath.Join(tmp, "racelog")
+	cmd := exec.Command(bin, "race", "-seed", fmt.Sprint(seed), "-dur", dur, "-out", out)
+	cmd.Env = append(os.Environ(), "GORACE=halt_on_error=1 exitcode=66 log_path="+logp, "VERIF_DIR="+verifDir)
+	cmd.Stderr = os.Stderr
+	err := cmd.Run()
+	code := 0
+	if ee, ok := err.(*exec.ExitError); ok {
+		code = ee.ExitCode()
+	} else if err != nil {
+		return map[string]any{"built": true, "error": err.Error()}, nil, 2
+	}
+	ev := map[string]any{"built": true, "exit": code, "note": "auxiliary, outside the deterministic core: real goroutines under the race detector; findings replay only probabilistically"}
+	var rr scen.RaceResult
+	if b, err := os.ReadFile(out); err == nil && json.Unmarshal(b, &rr) == nil {
+		ev["calls"], ev["goroutines"], ev["specs"], ev["wall_s"], ev["mismatches"] = rr.Calls, rr.Goroutines, rr.Specs, rr.WallS, len(rr.Mismatches)
+	}
+	var lines []string
+	writeReplay := func(class, detail string) string {
+		rf := map[string]any{"format": 1, "property": "C18", "class": class, "scenario": "hist/aux-race", "tier": tier, "base_seed": seed,
+			"violation": map[string]any{"property": "C18", "class": class, "detail": detail},
+			"note": "auxiliary race-detector run on real goroutines: re-run with `bin/verifsim-race race -seed <base_seed>`; the interleaving is not under the simulator's control, so this replays only probabilistically", "repo_tree": repoTree()}
+		b, _ := json.MarshalIndent(rf, "", " ")
+		path := filepath.Join(verifDir, "replays", fmt.Sprintf("C18-%d-race-%s.json", seed, strings.ReplaceAll(strings.TrimPrefix(class, "C18/"), "/", "-")))
+		os.MkdirAll(filepath.Dir(path), 0o755)
+		os.WriteFile(path, b, 0o644)
+		return path
+	}
+	switch {
+	case code == 66:
+		report := ""
+		if ms, _ := filepath.Glob(logp + "*"); len(ms) > 0 {
+			if b, err := os.ReadFile(ms[0]); err == nil {
+				report = string(b)
+				if len(report) > 3000 {
+					report = report[:3000]
+				}
+			}
+		}
+		fmt.Printf("violation: class=C18/data-race (race detector report)\n%s\n", report)
+		lines = append(lines, "VIOLATION property=C18 replay="+writeReplay("C18/data-race", report))
+	case code == 1:
+		d := strings.Join(rr.Mismatches, "\n")
+		fmt.Printf("violation: class=C18/concurrent-differs-from-alone\n%s\n", d)
+		lines = append(lines, "VIOLATION property=C18 replay="+writeReplay("C18/concurrent-differs-from-alone", d))
+	case code != 0:
+		fmt.Printf("note: the auxiliary race run ended with status %d\n", code)
+		return ev, nil, 2
+	}
+	return ev, lines, 0
 }
